@@ -11,7 +11,7 @@ import random as _pyrandom
 from pvc.contract import Contract
 from pvc.sym import And, Or, Not, Implies, eq, lt, le, is_sym, smin, smax
 from . import fx
-from .net import Net, build_dcop, global_cost, local_cost, HandlerRaised, get_spec, make_net
+from .net import Net, build_dcop, global_cost, local_cost, HandlerRaised, get_spec, make_net, warm_up
 
 
 def not_worse(mode, new, old):
@@ -75,6 +75,8 @@ def h_mgm_cycles(env):
         env.real = _real
     ap = dict(p.get("algo_params", {}))
     ap["stop_cycle"] = k
+    if p.get("warm_up"):
+        warm_up(env, algo, mode, spec, ap)
     net = make_net(env, algo + ".computations-can-be-built", algo, mode, variables, cons, ap)
     if net is None:
         return
@@ -290,6 +292,7 @@ def _shapes_mgm(tier, prop=None):
         dict(spec="pair2", stop_cycle=2, algo_params=dict(break_mode="random")),
         dict(spec="chain3", stop_cycle=2, modes=["min"], algo_params=dict(break_mode="random")),
     ]
+    s += [dict(spec="chain3", stop_cycle=2, modes=["min"], warm_up=True), dict(spec="triangle", stop_cycle=2, modes=["max"], warm_up=True)]
     # equal domains: the values of two different neighbours can be confused (value-keyed caches), needs the neighbours'
     # messages to arrive in another order than in an earlier cycle
     s += [dict(spec="chain3_free", stop_cycle=3, modes=["min"], policy="random", sched_seed=i, search_paths=6000) for i in (1, 2)]
@@ -351,6 +354,7 @@ def _shapes_mgm2(tier, prop=None):
     for off in _subsets(["x1", "x2"]):
         q.append(dict(algo="mgm2", spec="pair2", stop_cycle=2, offerers=off))
     q.append(dict(algo="mgm2", spec="pair2", stop_cycle=2))  # random offerer draw explored symbolically
+    q.append(dict(algo="mgm2", spec="chain3", stop_cycle=2, modes=["min"], offerers=["x2"], warm_up=True))
     # every allowed value of the algorithm's own parameters (favor: how a tie between the coordinated and the unilateral gain is settled)
     for fav in ("coordinated", "no"):
         q.append(dict(algo="mgm2", spec="pair2", stop_cycle=2, offerers=["x1"], algo_params=dict(favor=fav)))
